@@ -256,7 +256,7 @@ func (e *Env) binary(x *EBin) Val {
 	case "+":
 		if l.Sort() == SStr {
 			e.g.vc.ensureStrBase()
-			return Val{T: App("str.cat", l.T, r.T), Ty: l.Ty}
+			return Val{T: App("scat", l.T, r.T), Ty: l.Ty}
 		}
 		return Val{T: App("+", l.T, r.T), Ty: l.Ty}
 	case "-", "*":
@@ -374,7 +374,7 @@ func (e *Env) call(x *ECall) Val {
 		case *types.Basic:
 			if isString(v.Ty) {
 				e.g.vc.ensureStrBase()
-				return Val{T: App("str.len", v.T), Ty: tInt}
+				return Val{T: App("slen", v.T), Ty: tInt}
 			}
 		}
 		e.fail("len of %s", v.Ty)
